@@ -106,10 +106,13 @@ theorem lexing_terminates (s : Bytes) (trailing debug : Bool) :
     rw [hr] at hf
     simpa using hf
 
-/-- The only panic `read_to_end` can reach is the pointer-range `debug_assert!` on the `&[]` that
-`end_of_stream()` returns, and only in builds with debug assertions. -/
-theorem read_panics_only_static_rest {s : Bytes} {trailing debug : Bool} {site : String}
-    (h : readToEnd s trailing debug = .error (.panic site)) : site = "static-rest" ∧ debug = true := by
+/-- **read_never_panics**: `read_to_end` reaches none of the panic sites of `TokenStream::next`
+(`assert!(!self.last_was_endline)`, the slice index, the subtraction, the three `debug_assert!`s) nor the
+`debug_assert_eq!`s of `choose` / `token_intermediate`, in debug and in release builds, for every input.
+(Before fix c600801 the pointer-range assertions failed for the `&[]` of `end_of_stream()`.) -/
+theorem read_never_panics (s : Bytes) (trailing debug : Bool) (site : String) :
+    readToEnd s trailing debug ≠ .error (.panic site) := by
+  intro h
   unfold readToEnd at h
   have hp := readAll_post s trailing debug false
   split at h
@@ -117,20 +120,14 @@ theorem read_panics_only_static_rest {s : Bytes} {trailing debug : Bool} {site :
   · rename_i ts' e hr
     simp at h; subst h
     rw [hr] at hp
-    exact ⟨hp.2.1, hp.2.2.1⟩
+    exact hp.2
 
-/-- Release builds (no debug assertions): lexing never panics. -/
-theorem release_build_never_panics (s : Bytes) (trailing : Bool) (site : String) :
-    readToEnd s trailing false ≠ .error (.panic site) := by
-  intro h
-  have := (read_panics_only_static_rest h).2
-  cases this
-
-/-- … and the debug-build panic is real: an unterminated block comment (`/*`). Replayed on the real code by
-the corpus (`known_findings.jsonl`). -/
-theorem debug_build_panics_on_unterminated_comment :
-    (match readToEnd [47, 42] true true with | .error (.panic site) => some site | _ => none)
-      = some "static-rest" := by decide
+/-- regression witness for c600801: an unterminated block comment (`/*`) and a file ending in `0x` are
+diagnosed with `EndOfStream` at the end of the file -/
+example : (match readToEnd [47, 42] true true with | .error (.lexer r off) => some (r, off) | _ => none)
+    = some (.EndOfStream, 2) := by decide
+example : (match readToEnd [48, 120] true true with | .error (.lexer r off) => some (r, off) | _ => none)
+    = some (.EndOfStream, 2) := by decide
 
 /-- non-vacuity of `spans_tile`: `a<b // c⏎` followed by a line splice lexes to seven tokens + synthetic endline -/
 example : (readToEnd [97, 60, 98, 32, 47, 47, 99, 10, 92, 10]).toOption.map (·.map fun t => (t.start, t.stop))
@@ -151,65 +148,96 @@ theorem IsRadix.facts {f : UInt8 → Option Nat} {base : Nat} (h : IsRadix f bas
   · exact ⟨by omega, fun b d h => by have := hexDigit_lt b d h; omega⟩
   · exact ⟨by omega, fun b d h => by have := octDigit_lt b d h; omega⟩
 
-/-- **int_value_exact** (`literal_decimal_int` / `literal_hex_int` / `literal_octal_int`): an accepted literal
-consumed the maximal run of digits, that run's positional value `v` fits in 64 bits and is exactly what the
-token is built from (`mkIntToken v suffix`). -/
-theorem int_value_exact {f : UInt8 → Option Nat} {base : Nat} (hr : IsRadix f base) {inp rest : Bytes}
-    {tok : Token} (h : literalIntWith f base inp = .ok (rest, tok)) :
-    ∃ k, tok = mkIntToken (Dec2Bin.ofDigits base (digitRun f inp)) k ∧
-      Dec2Bin.ofDigits base (digitRun f inp) < 2 ^ 64 ∧
-      rest = (opt (intType (afterRun f inp)) (afterRun f inp)).1 := by
-  obtain ⟨hb, hf⟩ := hr.facts
-  cases inp with
-  | nil => simp [literalIntWith, digitsWith, digitWith, endOfStream] at h
-  | cons b r =>
-    cases hd : f b with
-    | none => simp [literalIntWith, digitsWith, digitWith, hd, wrongChars] at h
-    | some d =>
-      unfold literalIntWith at h
-      rw [digitsWith_closed f base hb hf b r d hd] at h
-      by_cases hlt : Dec2Bin.ofDigits base (digitRun f (b :: r)) < 2 ^ 64
-      · simp only [hlt, if_true] at h
-        simp at h
-        exact ⟨_, h.2.symm, hlt, h.1.symm⟩
-      · simp only [hlt, if_false] at h
-        cases h
-
-/-- **int_value_exact_partial**: the accepted token *denotes* the written value — for every suffix except
-`l`/`L` on a value ≥ 2^63 (see `int_value_exact_fails_for_suffix_l`; that case is the reason this is
-`_partial`). -/
-theorem int_value_exact_partial {f : UInt8 → Option Nat} {base : Nat} (hr : IsRadix f base) {inp rest : Bytes}
-    {tok : Token} (h : literalIntWith f base inp = .ok (rest, tok))
-    (hs : (opt (intType (afterRun f inp)) (afterRun f inp)).2 ≠ some .Signed64 ∨
-          Dec2Bin.ofDigits base (digitRun f inp) < 2 ^ 63) :
-    tok.intValue? = some (Dec2Bin.ofDigits base (digitRun f inp) : Int) := by
-  obtain ⟨hb, hf⟩ := hr.facts
-  cases inp with
-  | nil => simp [literalIntWith, digitsWith, digitWith, endOfStream] at h
-  | cons b r =>
-    cases hd : f b with
-    | none => simp [literalIntWith, digitsWith, digitWith, hd, wrongChars] at h
-    | some d =>
-      unfold literalIntWith at h
-      rw [digitsWith_closed f base hb hf b r d hd] at h
-      by_cases hlt : Dec2Bin.ofDigits base (digitRun f (b :: r)) < 2 ^ 64
-      · simp only [hlt, if_true] at h
-        simp at h
-        rw [← h.2]
-        exact mkIntToken_value _ _ hs
-      · simp only [hlt, if_false] at h
-        cases h
-
-/-- **int_overflow_rejected**: a digit run whose value does not fit in 64 bits is never accepted: the literal
-is rejected with `IntegerLiteralTooLarge` positioned at its first digit. -/
-theorem int_overflow_rejected {f : UInt8 → Option Nat} {base : Nat} (hr : IsRadix f base) (b : UInt8) (r : Bytes)
-    (d : Nat) (hd : f b = some d) (hbig : 2 ^ 64 ≤ Dec2Bin.ofDigits base (digitRun f (b :: r))) :
-    literalIntWith f base (b :: r) = .error (.lex (.rest (b :: r)) .IntegerLiteralTooLarge) := by
+/-- closed form of `literal_decimal_int` / `literal_hex_int` / `literal_octal_int` on an input starting with a
+digit: with `v` the positional value of the maximal digit run and `k` the suffix that follows it -/
+theorem literalIntWith_closed {f : UInt8 → Option Nat} {base : Nat} (hr : IsRadix f base) (b : UInt8) (r : Bytes)
+    (d : Nat) (hd : f b = some d) :
+    literalIntWith f base (b :: r) =
+      (if Dec2Bin.ofDigits base (digitRun f (b :: r)) < 2 ^ 64 then
+        (match mkIntToken? (Dec2Bin.ofDigits base (digitRun f (b :: r)))
+                 (opt (intType (afterRun f (b :: r))) (afterRun f (b :: r))).2 with
+         | some tok => .ok ((opt (intType (afterRun f (b :: r))) (afterRun f (b :: r))).1, tok)
+         | none => .error (.lex (.rest (b :: r)) .IntegerLiteralTooLarge))
+       else .error (.lex (.rest (b :: r)) .IntegerLiteralTooLarge)) := by
   obtain ⟨hb, hf⟩ := hr.facts
   unfold literalIntWith
   rw [digitsWith_closed f base hb hf b r d hd]
-  have : ¬ Dec2Bin.ofDigits base (digitRun f (b :: r)) < 2 ^ 64 := by omega
-  simp [this]
+  by_cases hlt : Dec2Bin.ofDigits base (digitRun f (b :: r)) < 2 ^ 64
+  · simp only [hlt, if_true]
+    split <;> (rename_i hk; simp [hk])
+  · simp only [hlt, if_false]
+
+/-- **int_value_exact** (full strength since fix dc17362): an accepted integer literal consumed the maximal run
+of digits and its suffix, the run's positional value `v` fits the token's payload type, and the token denotes
+exactly `v`. -/
+theorem int_value_exact {f : UInt8 → Option Nat} {base : Nat} (hr : IsRadix f base) {inp rest : Bytes}
+    {tok : Token} (h : literalIntWith f base inp = .ok (rest, tok)) :
+    tok.intValue? = some (Dec2Bin.ofDigits base (digitRun f inp) : Int) ∧
+    Dec2Bin.ofDigits base (digitRun f inp) < 2 ^ 64 ∧
+    mkIntToken? (Dec2Bin.ofDigits base (digitRun f inp)) (opt (intType (afterRun f inp)) (afterRun f inp)).2
+      = some tok ∧
+    rest = (opt (intType (afterRun f inp)) (afterRun f inp)).1 := by
+  obtain ⟨hb, hf⟩ := hr.facts
+  cases inp with
+  | nil => simp [literalIntWith, digitsWith, digitWith, endOfStream] at h
+  | cons b r =>
+    cases hd : f b with
+    | none => simp [literalIntWith, digitsWith, digitWith, hd, wrongChars] at h
+    | some d =>
+      rw [literalIntWith_closed hr b r d hd] at h
+      by_cases hlt : Dec2Bin.ofDigits base (digitRun f (b :: r)) < 2 ^ 64
+      · simp only [hlt, if_true] at h
+        split at h
+        · rename_i tok' hk
+          simp at h
+          obtain ⟨h1, h2⟩ := h
+          subst h1 h2
+          exact ⟨mkIntToken?_value hk, hlt, hk, rfl⟩
+        · cases h
+      · simp only [hlt, if_false] at h
+        cases h
+
+/-- **int_overflow_rejected**: a literal that does not fit — the digit run is `≥ 2^64`, or it is `≥ 2^63` and
+carries the signed suffix `l`/`L` — is never accepted: `IntegerLiteralTooLarge` at its first digit. -/
+theorem int_overflow_rejected {f : UInt8 → Option Nat} {base : Nat} (hr : IsRadix f base) (b : UInt8) (r : Bytes)
+    (d : Nat) (hd : f b = some d)
+    (hbig : 2 ^ 64 ≤ Dec2Bin.ofDigits base (digitRun f (b :: r)) ∨
+      ((opt (intType (afterRun f (b :: r))) (afterRun f (b :: r))).2 = some .Signed64 ∧
+        2 ^ 63 ≤ Dec2Bin.ofDigits base (digitRun f (b :: r)))) :
+    literalIntWith f base (b :: r) = .error (.lex (.rest (b :: r)) .IntegerLiteralTooLarge) := by
+  rw [literalIntWith_closed hr b r d hd]
+  by_cases hlt : Dec2Bin.ofDigits base (digitRun f (b :: r)) < 2 ^ 64
+  · simp only [hlt, if_true]
+    rcases hbig with hbig | hbig
+    · omega
+    · rw [mkIntToken?_none.mpr hbig]
+  · simp only [hlt, if_false]
+
+/-- **int_rejected_only_when_too_large**: conversely, `IntegerLiteralTooLarge` is reported only for a literal that
+really does not fit its type. -/
+theorem int_rejected_only_when_too_large {f : UInt8 → Option Nat} {base : Nat} (hr : IsRadix f base) {inp : Bytes}
+    {pos : ErrAt} (h : literalIntWith f base inp = .error (.lex pos .IntegerLiteralTooLarge)) :
+    pos = .rest inp ∧
+    (2 ^ 64 ≤ Dec2Bin.ofDigits base (digitRun f inp) ∨
+      ((opt (intType (afterRun f inp)) (afterRun f inp)).2 = some .Signed64 ∧
+        2 ^ 63 ≤ Dec2Bin.ofDigits base (digitRun f inp))) := by
+  cases inp with
+  | nil => simp [literalIntWith, digitsWith, digitWith, endOfStream] at h
+  | cons b r =>
+    cases hd : f b with
+    | none => simp [literalIntWith, digitsWith, digitWith, hd, wrongChars] at h
+    | some d =>
+      rw [literalIntWith_closed hr b r d hd] at h
+      by_cases hlt : Dec2Bin.ofDigits base (digitRun f (b :: r)) < 2 ^ 64
+      · simp only [hlt, if_true] at h
+        split at h
+        · cases h
+        · rename_i hk
+          simp at h
+          exact ⟨h.symm, .inr (mkIntToken?_none.mp hk)⟩
+      · simp only [hlt, if_false] at h
+        simp at h
+        exact ⟨h.symm, .inl (by omega)⟩
 
 /-- `literal_int` picks the radix from the prefix and then behaves as above -/
 theorem literalInt_radix (inp : Bytes) :
@@ -227,14 +255,13 @@ theorem literalInt_radix (inp : Bytes) :
       · exact .inr (.inr rfl)
     · exact .inr (.inr rfl)
 
-/-- **The full statement "an accepted integer literal denotes exactly its written value" is false on the
-pinned code**: `9223372036854775808l` (2^63, fits in 64 bits) is accepted and denotes `-2^63`
-(`value as i64` in `literal_decimal_int`). Replayed on the real lexer by `corpus/C10.txt`
-(known finding). -/
-theorem int_value_exact_fails_for_suffix_l :
-    (match literalInt [57, 50, 50, 51, 51, 55, 50, 48, 51, 54, 56, 53, 52, 55, 55, 53, 56, 48, 56, 108] with
+/-- regression witness for dc17362: `9223372036854775808l` (2^63 with the signed suffix) is rejected at offset 0;
+`9223372036854775807l` is accepted with its written value -/
+example : (match literalInt [57, 50, 50, 51, 51, 55, 50, 48, 51, 54, 56, 53, 52, 55, 55, 53, 56, 48, 56, 108] with
+     | .error (.lex (.rest r) k) => some (r.length, k) | _ => none) = some (20, .IntegerLiteralTooLarge) := by decide
+example : (match literalInt [57, 50, 50, 51, 51, 55, 50, 48, 51, 54, 56, 53, 52, 55, 55, 53, 56, 48, 55, 108] with
      | .ok (rest, tok) => (rest.length, tok.intValue?)
-     | .error _ => (1, none)) = (0, some (-9223372036854775808)) := by decide
+     | .error _ => (1, none)) = (0, some 9223372036854775807) := by decide
 
 /-- non-vacuity: `0x7fFFu;` is accepted with value 32767, `18446744073709551616` is rejected -/
 example : (match literalInt [48, 120, 55, 102, 70, 70, 117, 59] with
